@@ -3,3 +3,4 @@ pub mod decode;
 pub mod feat;
 pub mod iso;
 pub mod norm;
+pub mod reach;
